@@ -48,7 +48,7 @@ theorem length_eq {procs : List (List α)} {out : List α} (h : Interleave procs
 
 /-- Program order is preserved: every sequence is a subsequence of the interleaving. -/
 theorem sublist {procs : List (List α)} {out : List α} (h : Interleave procs out) :
-    ∀ j p, procs[j]? = some p → p.Sublist out := by
+    ∀ (j : Nat) (p : List α), procs[j]? = some p → p.Sublist out := by
   induction h with
   | done hnil =>
     intro j p hj
@@ -64,8 +64,8 @@ theorem sublist {procs : List (List α)} {out : List α} (h : Interleave procs o
       have hlt : j < procs.length := by
         have := List.getElem?_eq_some_iff.mp hi
         exact this.1
-      have : (procs.set j rest)[j]? = some rest := by simp [List.getElem?_set, hlt]
-      exact List.Sublist.cons₂ a (ih j rest this)
+      have : (procs.set j rest)[j]? = some rest := by simp [hlt]
+      exact List.Sublist.cons_cons a (ih j rest this)
     · have : (procs.set i rest)[j]? = some p := by
         rw [List.getElem?_set_ne (Ne.symm hji)]; exact hj
       exact List.Sublist.cons a (ih j p this)
